@@ -280,7 +280,12 @@ pub fn cap_below(r: &mut Rng, pct: u64, max: u64, delta: u64) -> CapSt {
 /// at the cap, as the token program does it: fee = max; the delta commitment is
 /// `fee_c*10000 - amount_c*bp` (opens to a wrapped scalar); claimed commits to `claimed`
 pub fn cap_at(r: &mut Rng, base: u64, bp: u16, max: u64, claimed: u64) -> CapSt {
-    let (rp, rb, rc) = (rand_scalar(r), rand_scalar(r), rand_scalar(r));
+    let rp = rand_scalar(r);
+    cap_at_rp(r, base, bp, max, claimed, rp)
+}
+/// the same with a chosen opening of the percentage commitment (zero: the commitment is `max*G`, publicly at the cap)
+pub fn cap_at_rp(r: &mut Rng, base: u64, bp: u16, max: u64, claimed: u64, rp: Scalar) -> CapSt {
+    let (rb, rc) = (rand_scalar(r), rand_scalar(r));
     let cm = commit(&Scalar::from(max), &rp);
     let cb = commit(&Scalar::from(base), &rb);
     let cd = cm * Scalar::from(10_000u64) - cb * Scalar::from(bp);
@@ -550,6 +555,32 @@ fn val_family(o: &mut Out, r: &mut Rng, n: usize, batched: bool) {
         t[first_pt + i] = addp(&t[first_pt + i], &rp);
         o.op(&format!("{}.defect-1", name), &format!("mprove R {} {} {} {}", name, t.join(" "), nonces(r, 2), zeros(k)));
     }
+    // the same single-point defects on statements whose keys coincide (all equal; first = last; first two equal;
+    // last two equal), and handle exchanges between positions with equal keys (which change nothing) / unequal keys
+    {
+        let base: Vec<RistrettoPoint> = (0..n).map(|_| kp(r).p).collect();
+        let mut patterns: Vec<Vec<RistrettoPoint>> = vec![vec![base[0]; n]];
+        let mut p = base.clone(); p[n - 1] = p[0]; patterns.push(p);
+        if n == 3 {
+            let mut p = base.clone(); p[1] = p[0]; patterns.push(p);
+            let mut p = base.clone(); p[2] = p[1]; patterns.push(p);
+        }
+        for ps in patterns {
+            let (_, mwe) = mk(r, a, b, Some(ps));
+            o.op(&format!("{}.equal-keys.honest", name), &format!("mprove A {} {} {} {}", name, mwe, nonces(r, 2), zeros(k)));
+            let te: Vec<String> = mwe.split_whitespace().map(|s| s.to_string()).collect();
+            for i in 0..npts {
+                let mut t = te.clone();
+                t[first_pt + i] = addp(&t[first_pt + i], &rp);
+                o.op(&format!("{}.equal-keys.defect-1", name), &format!("mprove R {} {} {} {}", name, t.join(" "), nonces(r, 2), zeros(k)));
+            }
+            for i in 0..n {
+                let mut t = te.clone();
+                t[nsc + i] = addp(&t[nsc + i], &rp);
+                o.op(&format!("{}.equal-keys.defect-key", name), &format!("mprove - {} {} {} {}", name, t.join(" "), nonces(r, 2), zeros(k)));
+            }
+        }
+    }
     // defects that cancel under unit weights between two statement points
     for i in 0..npts {
         for j in (i + 1)..npts {
@@ -700,6 +731,16 @@ pub fn gen_c03(o: &mut Out, tier: &str, seed: u64) {
             if th {
                 o.op("cap.residual-max", &format!("mprove R cap max {} {} {} {} {} {}", pts(&st2), hs(&st2.rp), ZERO_PT, ZERO_PT, nonces(&mut r, 5), offsets(&v, &rp)));
             }
+        }
+        // at the cap with the zero opening (percentage commitment = max*G, visibly at the cap): the proof is still checked
+        {
+            let st3 = cap_at_rp(&mut r, 1_000_000, 400, max, am2, Scalar::ZERO);
+            o.op("cap.at-cap-zero-opening.honest", &format!("mprove A cap max {} {} {} {} {} {}", pts(&st3), hs(&st3.rp), ZERO_PT, ZERO_PT, nonces(&mut r, 5), zeros(3)));
+            for v in residual_vectors(3) {
+                o.op("cap.at-cap-zero-opening.residual", &format!("mprove R cap max {} {} {} {} {} {}", pts(&st3), hs(&st3.rp), ZERO_PT, ZERO_PT, nonces(&mut r, 5), offsets(&v, &rp)));
+            }
+            o.op("cap.at-cap-zero-opening.wrong-branch", &format!("mprove R cap eq {} {} {} {} {} {}", pts(&st3), hs(&Scalar::from(st3.delta)), hs(&st3.rd), hs(&st3.rc), nonces(&mut r, 5), zeros(3)));
+            o.op("cap.at-cap-zero-opening.wrong-opening", &format!("mprove R cap max {} {} {} {} {} {}", pts(&st3), hs(&Scalar::ONE), ZERO_PT, ZERO_PT, nonces(&mut r, 5), zeros(3)));
         }
         // every max_value class with the same commitments: proof built for another max_value
         for m in maxes {
@@ -928,6 +969,17 @@ pub fn gen_c05(o: &mut Out, tier: &str, seed: u64) {
             let s = cap_at(&mut r, base, bp, max, claimed);
             emit(o, &mut r, "cap.at-cap", "cap", &s.wit(), 10);
         }
+        // at the cap with the zero opening on the percentage commitment (it is max*G, publicly at the cap), and opening 1
+        for rp0 in [Scalar::ZERO, Scalar::ONE] {
+            let s = cap_at_rp(&mut r, 1_000_000, 400, 3, 7, rp0);
+            emit(o, &mut r, "cap.at-cap-special-opening", "cap", &s.wit(), 10);
+        }
+        // below the cap with zero openings on delta and claimed (both are delta*G)
+        {
+            let mut s = cap_below(&mut r, 2, 5, 9);
+            s.rd = Scalar::ZERO; s.rc = Scalar::ZERO; s.cd = Scalar::from(9u64) * G; s.cc = s.cd;
+            emit(o, &mut r, "cap.below-zero-openings", "cap", &s.wit(), 10);
+        }
         // above the cap as the prover sees it (percentage_amount > max is not a valid statement for the
         // constructor's own check unless the commitment opens to it: pct = max+1 committed)
         let s = cap_below(&mut r, 10, 10, 4); // pct == max through cap_below: at-cap branch with delta == claimed
@@ -1124,6 +1176,26 @@ pub fn gen_c20(o: &mut Out, tier: &str, seed: u64) {
             let mut f = ctcmt_st(&mut r, a, a.wrapping_add(1));
             f.cm = f.c;                          // commitment := the ciphertext's commitment, opening of the old one
             bad(o, &mut r, "ctcmt.joint.commitment-is-ciphertext", "ctcmt", f.wit(), 3);
+            // same key pair and the very same ciphertext on both sides, but the opening given for the second is not its opening
+            for wrong in [rand_scalar(&mut r), Scalar::ZERO, Scalar::ONE] {
+                let mut f = ctct_st(&mut r, a, a);
+                f.k2 = Kp { s: f.k1.s, p: f.k1.p };
+                f.c2 = f.c1; f.d2 = f.d1; f.r = wrong;
+                bad(o, &mut r, "ctct.joint.same-key-same-ciphertext-wrong-opening", "ctct", f.wit(), 3);
+            }
+            // same key pair, second ciphertext honest under that key but for another amount
+            let mut f = ctct_st(&mut r, a, a.wrapping_add(1));
+            f.k2 = Kp { s: f.k1.s, p: f.k1.p }; f.d2 = f.r * f.k1.p;
+            bad(o, &mut r, "ctct.joint.same-key-other-amount", "ctct", f.wit(), 3);
+            // ct-commitment: commitment equal to the ciphertext's commitment, with a wrong opening
+            let mut f = ctcmt_st(&mut r, a, a);
+            let o1 = rand_scalar(&mut r);
+            f.c = commit(&Scalar::from(a), &o1); f.d = o1 * f.k.p; f.cm = f.c; f.r = rand_scalar(&mut r);
+            bad(o, &mut r, "ctcmt.joint.same-commitment-wrong-opening", "ctcmt", f.wit(), 3);
+            // zero proof: a ciphertext equal to (P, P) or (H, P): looks related to the key but is not an encryption of zero under it ... unless s = 1
+            let mut f = zero_st(&mut r, &Scalar::ZERO);
+            f.c = f.k.p; f.d = f.k.p;
+            bad(o, &mut r, "zero.joint.ciphertext-is-key", "zero", f.wit(), 1);
         }
         let f = cap_below(&mut r, 2, 5, 9);
         good(o, &mut r, "cap.ok-below", "cap", f.wit(), 10);
@@ -1151,6 +1223,10 @@ pub fn gen_c19(o: &mut Out, tier: &str, seed: u64) {
     for a in [0u64, 77, u64::MAX] { d(o, "enc-u64", format!("fresh encu64 {} {} {}", hp(&k.p), a, n)); }
     d(o, "seckeygen", format!("fresh seckeygen {}", n));
     let (k2, k3) = (kp(&mut r), kp(&mut r));
+    // every handle count, zero handles included (the ciphertext is then just the commitment)
+    d(o, "genc", format!("fresh genc 5 {}", n));
+    d(o, "genc", format!("fresh genc 0 {}", n));
+    d(o, "genc", format!("fresh genc 5 {} {}", hp(&k.p), n));
     d(o, "genc", format!("fresh genc 5 {} {} {}", hp(&k.p), hp(&k2.p), n));
     d(o, "genc", format!("fresh genc 5 {} {} {} {}", hp(&k.p), hp(&k2.p), hp(&k3.p), n));
     d(o, "ae", format!("fresh ae {} 55 {}", hex(&r.bytes(16)), n));
